@@ -172,6 +172,31 @@ class Gen:
 
 # ------------------------------------------------------------------ layout variation (C14) and token-level edits (C01)
 
+WORDLIKE = ("identifier", "keyword", "int", "decimal", "boolean")
+BRACKETS = set("()[],;")
+
+
+def adjacent_ok(left, lt, right, rt):
+    """may the two token texts be written with nothing between them?  Decided from the token grammar alone (never by asking the
+    scanner under test): a word-like token and a symbol token may touch, single-character brackets may touch each other; nothing
+    touches a pattern, a `/`, or a dot, and two word-like or two operator tokens never touch"""
+    if "pattern" in (lt, rt) or "/" in left or "/" in right or left.endswith(".") or right.startswith(".") or not left or not right:
+        return False
+    lw, rw = lt in WORDLIKE, rt in WORDLIKE
+    if lw and rw:
+        return False
+    if lt == "string" or rt == "string":
+        return (left in BRACKETS and len(left) == 1) or (right in BRACKETS and len(right) == 1)
+    if lw or rw:
+        sym = right if lw else left
+        if lw and lt in ("int", "decimal") and sym[0] in "eExXbB_":
+            return False
+        if rw and sym == "-" and rt in ("int", "decimal"):
+            return True
+        return True
+    return left in BRACKETS and right in BRACKETS
+
+
 def render_tokens(tokens, rng=None, canonical=True):
     """re-render a token list (value, type) to text; canonical = single spaces"""
     parts = []
@@ -220,6 +245,8 @@ def render_tokens(tokens, rng=None, canonical=True):
     for i, p in enumerate(parts):
         out += p
         if i + 1 < len(parts):
+            if rng.random() < 0.25 and adjacent_ok(p, tokens[i][1], parts[i + 1], tokens[i + 1][1]):
+                continue            # no separator at all where two tokens can touch
             out += rng.choice([" ", "  ", "\t", "\n", "\r\n", " # comment\n", "\n\n", " \t ", " #\n", "\n# c1\n# c2\n"])
     if rng.random() < 0.3:
         out += rng.choice(["\n", " ", " # trailing comment", "\r\n"])
